@@ -6,7 +6,7 @@ EXPLANATION = (
     "src.val * 2^(dst.n_frac - src.n_frac), a code of the destination's fraction length, with no floor/shift/cast of its own, and stores it with raw=True; "
     "R2 the storing set_val's receiver is the destination (self; in like() a deep copy of the template), so C01's pipeline quantizes under the destination's modes; "
     "resize re-stores after every size write and refreshes metadata on every path (no fast path that skips re-quantization); R3 the routes do not write to "
-    "their source object; R4 no subscript by an index that is None on that path (shape preservation); __setitem__/constructor reach the normaliser's branch through "
+    "their source object; R4 no subscript by an index that is None on that path (shape preservation); R5 re-scaled codes that may be fractional are not given an integer value type before rounding; __setitem__/constructor reach the normaliser's branch through "
     "set_val (write-funnel rule); like=/template state is deep-copied (sequences of conversions do not leak modes). Residual: value-level agreement on inexact doubles.")
 ASSUMPTIONS = ["a[None] inserts an axis (NumPy lemma)", "2**k with negative k is an exact dyadic double"]
 TRUSTED = ["CPython ast", "scale typing rules of DESIGN A6"]
@@ -16,7 +16,9 @@ def run(ck):
     conv.rescaling_siblings(ck, "C10.R1", "C10.R2")
     sizes.resize_rules(ck, {"restore_raw": "C10.R1", "refresh": "C10.R2", "nint": "C02.R3"})
     conv.source_untouched(ck, "C10.R3")
+    sizes.init_size_relation(ck, "C06.R1")
     conv.no_none_subscripts(ck, "C10.R4")
+    routes.no_truncation_before_rounding(ck, "C10.R5")
     routes.write_funnel(ck, "C01.R1")
     fresh.constructor_state(ck, "C20.R2")
     pipeline.store_pipeline(ck, "C01.R2", want_bounds=False)
